@@ -30,8 +30,11 @@ func init() {
 			for r := 0; r < reps; r++ {
 				for _, dir := range []string{"forward", "reverse"} {
 					for _, fc := range []string{"on", "bothnofc"} {
-						for _, pt := range []string{"client.finish.afterDone", "client.finish.betweenPublish", "client.cancel.beforeReceiverCancel", "client.recv.beforeAccept", "cancel-frame-send"} {
+						for _, pt := range []string{"client.finish.afterDone", "client.finish.betweenPublish", "client.cancel.beforeReceiverCancel", "client.recv.beforeAccept", "cancel-frame-send", "cancel-on-receive-loop", "cancel-on-receive-loop", "cancel-on-receive-loop"} {
 							for _, cause := range []string{"cancel", "deadline"} {
+								if pt == "cancel-on-receive-loop" && cause == "deadline" {
+									continue
+								}
 								for _, shape := range []string{"ServerStream", "Bidi", "Unary", "MidSend"} {
 									cfg := WorldCfg{Dir: dir}
 									if fc == "bothnofc" {
@@ -98,7 +101,22 @@ func famFinishWindow(w *World, c *Case, rng *rand.Rand) {
 	n := c.p("msgs", 2)
 	w.SigExtra = fmt.Sprintf("%s/%s/%s/%d/%d", point, cause, shape, n, c.p("when", 0))
 	// the first arrival at the point is held for a millisecond of virtual time
-	if point == "cancel-frame-send" {
+	var s *RPCSpec
+	if point == "cancel-on-receive-loop" {
+		// the caller's cancellation takes effect on the receive loop's own goroutine, the moment
+		// the loop has taken frame number h of the RPC's responses off the carrier (a cancel
+		// function called from a callback the loop runs would do that): the loop goes on to
+		// deliver that frame and the ones behind it, the close frame included, before the
+		// goroutine that watches the caller's context gets to run - the race the RPC's normal
+		// completion wins
+		h := (c.p("when", 0) + c.p("msgs", 2)) % 5
+		w.installYield(&YieldPlan{Fn: func(p string, n int) {
+			if p == "client.recv.gotFrame" && n == h && s != nil && s.cancel != nil {
+				w.Stat("finishwindow_cancelled_on_receive_loop", 1)
+				s.cancel()
+			}
+		}})
+	} else if point == "cancel-frame-send" {
 		// the detached goroutine that puts the cancel frame on the carrier is scheduled late
 		w.installYield(&YieldPlan{Fn: func(p string, n int) {
 			if p == "carrier.send.beforeLock" && callerHas("cancelStream.func") {
@@ -109,7 +127,6 @@ func famFinishWindow(w *World, c *Case, rng *rand.Rand) {
 	} else {
 		w.installYield(&YieldPlan{Parks: map[string][]time.Duration{point: {time.Millisecond}}})
 	}
-	var s *RPCSpec
 	trl := metadata.MD{"t": {"1", "2"}}
 	switch shape {
 	case "MidSend":
@@ -138,7 +155,7 @@ func famFinishWindow(w *World, c *Case, rng *rand.Rand) {
 		s.Timeout = time.Duration(300+200*c.p("when", 0)) * time.Microsecond
 	}
 	w.Env.StartRPC(w.RootCtx, w.Ch, s)
-	if cause == "cancel" {
+	if cause == "cancel" && point != "cancel-on-receive-loop" {
 		time.Sleep(time.Duration(300+200*c.p("when", 0)) * time.Microsecond)
 		s.cancel()
 	}
@@ -146,7 +163,7 @@ func famFinishWindow(w *World, c *Case, rng *rand.Rand) {
 	w.Env.Signal("drain")
 	w.Advance(time.Second)
 	w.yield.mu.Lock()
-	held := w.yield.Hits[point] > 0 || point == "cancel-frame-send"
+	held := w.yield.Hits[point] > 0 || point == "cancel-frame-send" || point == "cancel-on-receive-loop"
 	w.yield.mu.Unlock()
 	if held {
 		w.Stat("finishwindow_held", 1)
